@@ -12,7 +12,7 @@
 From Coq Require Import QArith Qabs ZArith List Bool Permutation.
 From LV Require Import Wordlist.SerializeStr Wordlist.SerializeStrProofs Wordlist.SerializeNum Wordlist.SerializeNumProofs
   Wordlist.Serialize Wordlist.SerializeProofs Wordlist.SerializeBlockProofs Wordlist.SerializeMsa
-  Wordlist.SerializeMsaProofs Wordlist.SerializeExec Wordlist.SerializeExecProofs.
+  Wordlist.SerializeMsaProofs Wordlist.SerializeExec Wordlist.SerializeExecProofs Wordlist.SerializeHistoryProofs Wordlist.SerializeFileProofs.
 From LVGen Require Import NamespaceRc.
 Import ListNotations.
 Local Open Scope Z_scope.
@@ -95,6 +95,33 @@ Proof.
   split; [|vm_compute; reflexivity].
   apply file_roundtrip; [vm_compute; reflexivity|split; [split|]; vm_compute; reflexivity|].
   repeat constructor.
+Qed.
+
+(* ---- histories save -> load -> save -> load ...: the object that was loaded (loaded w = the columns and the rows in
+   the order written) is inside the guard again, saving it writes the SAME file, and any number of save -> load steps
+   gives the object the first step gave ---- *)
+Theorem C13_loaded_in_guard : forall tbl w, wl_okb tbl w = true -> wl_okb tbl (loaded w) = true.
+Proof. exact loaded_in_guard. Qed.
+Print Assumptions C13_loaded_in_guard.
+
+Theorem C13_second_save_same_file : forall tbl pretty pre stamp w, wl_okb tbl w = true ->
+  write pretty pre stamp (loaded w) = write pretty pre stamp w.
+Proof. exact second_save_same_file. Qed.
+Print Assumptions C13_second_save_same_file.
+
+Theorem C13_history_roundtrip : forall tbl pretty pre stamp n w,
+  wl_okb tbl w = true -> closed_pre pre -> Forall skipline stamp ->
+  reload_n tbl pretty pre stamp (S n) w = Ok (loaded w).
+Proof. exact history_roundtrip. Qed.
+Print Assumptions C13_history_roundtrip.
+
+(* three rounds on the example object: the rows stay grouped by concept (2; 3; 1), the first file is a fixpoint *)
+Example C13_history_inhabited :
+  reload_n namespace_rc true ex_pre [] 3 ex_wl = Ok (loaded ex_wl)
+  /\ map fst (wl_rows (loaded ex_wl)) = [2; 3; 1] /\ wl_rows (loaded ex_wl) <> wl_rows ex_wl.
+Proof.
+  split; [apply history_roundtrip; [vm_compute; reflexivity|split; [split|]; vm_compute; reflexivity|constructor]|].
+  split; [vm_compute; reflexivity|]. intros E. apply (f_equal (map fst)) in E. vm_compute in E. discriminate E.
 Qed.
 
 (* ---- derived LexStat columns against the REGENERATED table (the obligation that failed for
@@ -291,6 +318,63 @@ Example C13_alignments_state_inhabited :
   map (fun e => (fst e, r_ids (snd e))) (alignments_state (wl_cols ex_wl) c_cogid [[69; 110; 103]; [71; 101; 114]] [1; 2] (wl_rows ex_wl))
      = [(1, [1; 3])].
 Proof. vm_compute; reflexivity. Qed.
+
+(* ---- the whole file: MSA sections, the <dst> block and the <scorer> blocks inside the meta part, read by the file
+   reader (block collection, tag parsing), then the data.  Guards: taxon names neither starting with '#' (F12) nor with
+   '<', a square matrix; scorer ids without '>' and double quote, at least two symbols (F13), symbols non-empty, TAB-free,
+   not starting with '<', non-empty rows ---- *)
+Theorem C13_meta_part_roundtrip : forall l dst sc, Forall section_ok l ->
+  match dst with Some d => dst_ok d | None => True end -> Forall scorer_ok sc ->
+  closed_pre (meta_part l dst sc)
+  /\ (let bs := meta_blocks l dst sc in
+      read_msas bs = Ok (expected_sections l)
+      /\ read_distances bs None
+         = Ok (match dst with Some (taxa, m) => Some (sym_upper (map (map r4) m)) | None => None end)
+      /\ read_scorers bs
+         = Ok (map (fun e => (fst (fst e), combine (snd (fst e)) (map (map r2) (snd e)))) sc)).
+Proof. exact meta_part_roundtrip. Qed.
+Print Assumptions C13_meta_part_roundtrip.
+
+Theorem C13_full_file_roundtrip : forall tbl pretty stamp w l dst sc,
+  wl_okb tbl w = true -> Forall section_ok l ->
+  match dst with Some d => dst_ok d | None => True end -> Forall scorer_ok sc -> Forall skipline stamp ->
+  exists ls blocks,
+    write pretty (meta_part l dst sc) stamp w = Ok ls
+    /\ read tbl ls = Ok (mk_wl (wl_cols w) (sorted_rows w))
+    /\ (exists data meta, read_raw ls = Ok (data, blocks, meta))
+    /\ read_msas blocks = Ok (expected_sections l)
+    /\ read_distances blocks None
+       = Ok (match dst with Some (taxa, m) => Some (sym_upper (map (map r4) m)) | None => None end)
+    /\ read_scorers blocks = Ok (map (fun e => (fst (fst e), combine (snd (fst e)) (map (map r2) (snd e)))) sc).
+Proof. exact full_file_roundtrip. Qed.
+Print Assumptions C13_full_file_roundtrip.
+
+Definition ex_dst : list str * list (list Q) := ([[65]; [76; 111; 110; 103; 84; 97; 120; 111; 110; 78; 97; 109; 101]],
+                                                [[0%Q; (1 # 32)%Q]; [(1 # 32)%Q; 0%Q]]).
+Definition ex_sc : str * list str * list (list Q) :=
+  ([98; 115], [[49; 46; 65]; [50; 46; 66]], [[(5 # 1)%Q; (- (1 # 8))%Q]; [(3 # 8)%Q; (5 # 1)%Q]]).
+(* the guards are satisfiable together: one cognate set, a distance matrix with a rounding tie, one scorer *)
+Example C13_full_file_inhabited :
+  Forall section_ok [(c_cogid, [(1, [], ex_msa)])] /\ dst_ok ex_dst /\ Forall scorer_ok [ex_sc]
+  /\ (let bs := meta_blocks [(c_cogid, [(1, [], ex_msa)])] (Some ex_dst) [ex_sc] in
+      length bs = 3%nat
+      /\ read_distances bs None = Ok (Some (sym_upper (map (map r4) (snd ex_dst))))
+      /\ read_scorers bs = Ok [([98; 115], combine (snd (fst ex_sc)) (map (map r2) (snd ex_sc)))]).
+Proof.
+  assert (S : Forall section_ok [(c_cogid, [(1, [], ex_msa)])]).
+  { constructor; [|constructor]. split; [split; intros I; cbn in I; repeat (destruct I as [I|I]; [discriminate I|]); exact I|].
+    constructor; [|constructor]. split; [vm_compute; reflexivity|constructor]. }
+  assert (D : dst_ok ex_dst).
+  { split; [reflexivity|]. split; repeat constructor. }
+  assert (C : Forall scorer_ok [ex_sc]).
+  { constructor; [|constructor]. unfold scorer_ok, ex_sc. cbn [fst snd].
+    split; [split; intros I; cbn in I; repeat (destruct I as [I|I]; [discriminate I|]); exact I|]. split.
+    - repeat constructor; try discriminate; intros I; cbn in I; repeat (destruct I as [I|I]; [discriminate I|]); exact I.
+    - split; [cbn; repeat constructor|]. split; [reflexivity|]. repeat constructor; discriminate. }
+  split; [exact S|]. split; [exact D|]. split; [exact C|].
+  destruct (meta_part_roundtrip _ (Some ex_dst) _ S D C) as [_ [_ [R2 R3]]].
+  cbv zeta. split; [reflexivity|]. split; [exact R2|exact R3].
+Qed.
 
 (* ---- the checkers that run on the implementation's output ---- *)
 Theorem C13_checker_sound : forall w loaded, same_objectb w loaded = true ->
